@@ -37,17 +37,27 @@ func execCompress(c compCase, src []byte) (res compResult) {
 	if err := arenas(); err != nil {
 		return compResult{Status: "harness", Detail: err.Error()}
 	}
-	if c.DstLen+c.Spare+8192 > arenaDst {
-		return compResult{Status: "harness", Detail: "case too large for the arena"}
-	}
-	arenaMu.Lock()
-	defer arenaMu.Unlock()
 	const lead = 4096
-	dst := aDst.End(c.DstLen, c.Spare)
-	reg := aDst.Region()
-	start := len(reg) - c.DstLen - c.Spare
-	before := reg[start-lead : start]
-	after := dst[c.DstLen : c.DstLen+c.Spare]
+	var dst, before, after []byte
+	if c.DstLen+c.Spare+8192 > arenaDst {
+		// larger than the arena: a heap slice with canaries in front of dst and in its spare capacity (at least 64 bytes of it)
+		spare := c.Spare
+		if spare < 64 {
+			spare = 64
+		}
+		back := make([]byte, lead+c.DstLen+spare)
+		before = back[:lead]
+		dst = back[lead : lead+c.DstLen : lead+c.DstLen+spare]
+		after = back[lead+c.DstLen:]
+	} else {
+		arenaMu.Lock()
+		defer arenaMu.Unlock()
+		dst = aDst.End(c.DstLen, c.Spare)
+		reg := aDst.Region()
+		start := len(reg) - c.DstLen - c.Spare
+		before = reg[start-lead : start]
+		after = dst[c.DstLen : c.DstLen+c.Spare]
+	}
 	inst.FillCanary(before)
 	inst.FillCanary(after)
 	for i := range dst {
@@ -186,7 +196,7 @@ const c10Rule = "sources weighted towards long runs, periodic data whose period 
 	"0..14 bytes before the end, 12..40-byte low-entropy texts, plus the C01 grammar; all four compressor entry points, HC depths as C01; destination = bound, bound+k or any " +
 	"length 0..bound (partial successes). Pinned: every length 12..40 x 5 repetitive contents x every compressor. Oracle whenever n > 0: the independent strict validator (offsets " +
 	"1..65535 within the output, final sequence literals-only, last 5 bytes literals, last match starts >= 12 bytes before the end, no match below 13 bytes) and the strict " +
-	"reference decode equals the source. Non-trivial = the last match ends within 32 bytes of the end; distinct by hash(source, compressor, depth, len(dst))."
+	"reference decode equals the source. Non-trivial = the last match ends within 32 bytes of the end; distinct by hash(source, compressor, depth, len(dst)). Long-lived objects (pinned regimes): targets compressed exactly 255/256/257/65535/65536/65537 calls after nearly identical inputs; after 2^31, 2^32, 2^32+2^31, 2^33 bytes (minus 64 or 4096) through the same object; single sources of 9 MiB of random bytes."
 
 func TestC10Pinned(t *testing.T) {
 	stat.For("C10").SetRule(c10Rule)
